@@ -635,6 +635,15 @@ Definition check_recover_on_disk (ss : snapshot) (init : bool) (ondisk_init ondi
 Definition check_partial_on_disk (ss : snapshot) (init : bool) (ondisk_init ondisk : N) : bool :=
   if init then negb (ondisk_init <? s_ondisk ss) else negb (ondisk <? s_ondisk ss).
 
+(* isShrunkSnapshot: [image_shrunk] = snapshotter.Shrunk(ss), i.e. the image on
+   disk is the shrunk (empty) one an on-disk state machine leaves behind after
+   it has recovered from a snapshot and synced *)
+Definition is_shrunk_snapshot (on_disk_sm image_shrunk : bool) (ss : snapshot) : bool :=
+  if negb on_disk_sm then false
+  else if s_witness ss || s_dummy ss then false
+  else if shrunk_check_inspects_imported then image_shrunk
+  else false.  (* some records are not inspected: taken as not shrunk *)
+
 Definition do_recover (on_disk_sm shrunk : bool) (last_applied ondisk_init ondisk : N)
            (ss : snapshot) (init : bool) : recover_outcome :=
   if s_index ss <=? last_applied then RcOutOfDate
@@ -644,6 +653,10 @@ Definition do_recover (on_disk_sm shrunk : bool) (last_applied ondisk_init ondis
   else if recover_required ss init ondisk_init ondisk then
     if check_recover_on_disk ss init ondisk_init ondisk then RcLoaded else RcPanic
   else RcSkipped.
+
+(* one start of a repaired replica: what happens to the record in the log store *)
+Definition restart_recover (on_disk_sm image_shrunk : bool) (ondisk_init : N) (ss : snapshot) : recover_outcome :=
+  do_recover on_disk_sm (is_shrunk_snapshot on_disk_sm image_shrunk ss) 0 ondisk_init ondisk_init ss true.
 
 (* ================================================================== *)
 (* observations for the differential check                              *)
